@@ -2,7 +2,7 @@
 # soak: run quick checks of the given properties over several seeds; prints only failures
 cd "$(dirname "$0")/.." || exit 2
 ./setup.sh >/dev/null 2>&1
-props=${PROPS:-"C01 C02 C04 C05 C17 C19 C08"}
+props=${PROPS:-"C01 C02 C03 C04 C05 C06 C07 C08 C09 C10 C11 C12 C13 C14 C15 C16 C17 C18 C19 C20"}
 for seed in ${SEEDS:-1 2 3 4 5 6 7 8}; do
   for p in $props; do
     out=$(VERIF_SEED=$seed ./check $p ${TIER:-quick} 2>&1 | grep -v "^KNOWN-FINDING")
